@@ -423,4 +423,57 @@ class C11(Prop):
             v.add_divergence(sig, [], cnt, exs)
 
 
-PROPS = {"C11": C11(), "C16": C16(), "C13": C13(), "C15": C15(), "C14": C14(), "C07": C07(), "C08": C08(), "C09": C09(), "C10": C10(), "C04": C04(), "C12": C12(), "C02": C02(), "C01": C01(), "C05": C05(), "C06": C06(), "C20": C20(), "C19": C19(), "C17": C17(), "C18": C18()}
+class C03(Prop):
+    cmd = "c03"
+    cases = {"quick": 300, "thorough": 10000}
+    rule = ("files written by gen/xlsxgen.py (grammar over the file: t = s / str / inlineStr / b / e / n / absent, rich and phonetic strings, shared-formula blocks with masters and children at all offsets incl. "
+            "references before the master and $-locked parts, xml:space, entities and character references in text and in every attribute channel, optional row/col attributes, cellXfs resolution) and every "
+            "non-empty corpus file; distinct = distinct files")
+    assumptions = ["oracle for generated files: the intent recorded by the generator (formulas rendered from its AST); every generated file must also pass our own validator and agree with our own decoder, otherwise it is set aside as a generator problem (inconclusive)",
+                   "oracle for corpus files: monitors/xlsx_decode.py; shared-formula children whose master the conservative shifter cannot tokenise are inconclusive cells",
+                   "formulas are compared modulo blanks adjacent to operators; an empty cached string and a blank cached value are one class; defined-name qualifiers modulo optional quoting; xf resolution only where apply* is absent or 1"]
+
+    def run(self, v, tier, seed):
+        sys.path.insert(0, os.path.join(vlib.VERIF, "monitors"))
+        sys.path.insert(0, os.path.join(vlib.VERIF, "gen"))
+        import c03_check, xlsxgen, xlsx_validate, glob
+        out = vlib.workdir("c03")
+        n = self.cases[tier]
+        seeds = [seed * 1000003 + i for i in range(n)]
+        good = []
+        for sd in seeds:
+            data, intent = xlsxgen.generate(sd)
+            if xlsx_validate.validate(data):
+                v.inconclusive.append({"why": "generated file %d fails our own validator" % sd})
+                v.inconclusive_count += 1
+                continue
+            open(os.path.join(out, "gen-%d.xlsx" % sd), "wb").write(data)
+            good.append(sd)
+        corpus = sorted(p for p in glob.glob("/repo/tests/test_files/*.xls[xm]") if os.path.getsize(p) > 0)
+        with open(os.path.join(out, "list.txt"), "w") as f:
+            for sd in good:
+                f.write(os.path.join(out, "gen-%d.xlsx" % sd) + "\n")
+            for p in corpus:
+                f.write(p + "\n")
+        res = vlib.run_uvh("c03", out, seed, tier, extra={"list": os.path.join(out, "list.txt")})
+        v.add_result(res)
+        dumps = {}
+        for line in open(os.path.join(out, "dumps.jsonl"), encoding="utf-8"):
+            r = json.loads(line)
+            dumps[r["file"]] = r
+        totals, groups, issues = c03_check.check(out, good, corpus, dumps)
+        for k, val in totals.items():
+            v.counters["compared." + k] = val
+        v.counters["generated_files"] = len(good)
+        v.counters["corpus_files"] = len(corpus)
+        v.observations = sum(totals.values())
+        for i in issues:
+            v.inconclusive.append({"why": "oracle self-check: " + i[:300]})
+            v.inconclusive_count += 1
+        for (sig, feats), (cnt, exs) in groups.items():
+            v.add_divergence(sig, list(feats), cnt, exs)
+        v.rule = self.rule
+        v.assumptions = list(self.assumptions)
+
+
+PROPS = {"C03": C03(), "C11": C11(), "C16": C16(), "C13": C13(), "C15": C15(), "C14": C14(), "C07": C07(), "C08": C08(), "C09": C09(), "C10": C10(), "C04": C04(), "C12": C12(), "C02": C02(), "C01": C01(), "C05": C05(), "C06": C06(), "C20": C20(), "C19": C19(), "C17": C17(), "C18": C18()}
